@@ -20,7 +20,7 @@ EXHAUSTIVE = {"quick": False, "thorough": False}
 ASSUMPTIONS = [
     "corruptions act on the octets of the frame, which are then delivered in an intact SLIP envelope; wire-level flips that create or destroy a delimiter are the subject of C12 and fall under the arbitrary-octet-sequence part of the statement",
     "bursts are contiguous in transmission order of a serial line (least significant bit of every octet first) - the order CRC-16/ARC is defined over",
-    "two-bit errors: detection follows from the period of the generator polynomial (32767 bits) for frames below 4095 octets; this is NOT proved here - the two-bit class is covered by enumeration in the differential run only (every pair inside the protected fields of the corpus frames in the thorough tier)",
+    "two-bit errors are proved detected for bit distances up to 32 766 (the order of x modulo the generator polynomial is 32 767, kernel evaluation); beyond that distance - 4 095 octets - CRC-16/ARC does miss two-bit errors, the bound is part of the theorem",
     "bursts that touch both octet 11 (last octet of the block-size field) and the header checksum behind it are outside what the theorems cover and outside what the code can detect: recorded known finding with a proved witness (Ufw.Props.C07.burst_across_size_and_checksum_accepted)",
     "lean/Ufw/Model/Regp.lean is a hand transcription of parse_header / payload_plausible / check_payload / regp_recv / regp_process tied to the code by the correspondence run; Spec.Regp.classify is the independent reading of doc/regp.txt",
 ]
